@@ -15,4 +15,5 @@ META = {
     "technique": "TLA+ spec KRepl (+KRange decision table) model-checked by TLC; lifecycle histories replayed on real servers and validated by KReplTrace",
 }
 def run(tier, replay):
-    _repl.run_property(PID, tier, replay, META, "lifecycle", sorted(glob.glob("/verif/spec/witness/C09-*.ndjson")))
+    _repl.run_property(PID, tier, replay, META, "lifecycle", sorted(glob.glob("/verif/spec/witness/C09-*.ndjson")),
+                       cfgs_quick=["KReplMC_life_quick"], cfgs_thorough=["KReplMC_life", "KReplMC_2r"])
